@@ -204,6 +204,7 @@ const prelude = `
 (declare-fun tagty (Int) Int)
 (declare-fun ptrtag (Int) Bool)
 (declare-fun elty (Ref) Int)
+(declare-fun tyclass (Int) Int)
 (define-fun parent ((r Ref)) Ref (ite ((_ is fld) r) (fbase r) (ite ((_ is elt) r) (ebase r) null)))
 (define-fun within ((r Ref) (x Ref)) Bool (and (not (= x null)) (or (= (parent r) x) (= (parent (parent r)) x) (= (parent (parent (parent r))) x))))
 (define-fun withineq ((r Ref) (x Ref)) Bool (and (not (= x null)) (or (= r x) (= (parent r) x) (= (parent (parent r)) x) (= (parent (parent (parent r))) x))))
